@@ -29,7 +29,7 @@ TargetDefs == [ T_1 |-> Str,
              T_10 |-> Mk([type |-> "object", discriminator |-> "kind"], [properties |-> Mk(<<>>, [kind |-> Str])]),
              T_11 |-> Mk([type |-> "array"], [items |-> Mk([type |-> "array"], [items |-> RefD("T_11")])]) ]
 
-Leaves == { <<"leaf", k>> : k \in {"string", "integer", "date", "int32", "enum", "empty", "emptyobject", "object", "discriminated", "untypedprops", "barearray"} }
+Leaves == { <<"leaf", k>> : k \in {"string", "integer", "date", "int32", "enum", "empty", "emptyobject", "object", "discriminated", "untypedprops", "barearray", "binary", "untypedformat"} }
           \cup { <<"ref", t>> : t \in DOMAIN TargetDefs }
 LeafSchema(kk) ==
   IF kk[1] = "ref" THEN RefD(kk[2]) ELSE
@@ -45,8 +45,10 @@ LeafSchema(kk) ==
     [] k = "discriminated" -> Mk([type |-> "object", discriminator |-> "kind"], [properties |-> Mk(<<>>, [kind |-> Str])])
     [] k = "untypedprops"  -> Mk(<<>>, [properties |-> Mk(<<>>, [N_2 |-> Str])])
     [] k = "barearray" -> Mk([type |-> "array"], <<>>)
+    [] k = "binary"    -> Mk([type |-> "string", format |-> "binary"], <<>>)      \* a primitive whose format the registry does not know
+    [] k = "untypedformat" -> Mk([format |-> "uuid"], <<>>)
 
-Wrappers == {"array", "map", "maptrue", "tuple", "tupleextra", "tupleallows", "allof", "extended", "prop"}
+Wrappers == {"array", "map", "maptrue", "tuple", "tupleextra", "tupleallows", "allof", "extended", "prop", "allofmap", "allofmaptrue"}
 WrapC(w, s) ==
   CASE w = "array"  -> Mk([type |-> "array"], [items |-> s])
     [] w = "map"    -> Mk([type |-> "object"], [additionalProperties |-> s])
@@ -57,6 +59,9 @@ WrapC(w, s) ==
     [] w = "allof"  -> Mk(<<>>, [allOf |-> ListOf(<<s, ObjP([N_3 |-> Int])>>)])
     [] w = "extended" -> Mk([type |-> "object"], [properties |-> Mk(<<>>, [N_3 |-> Int]), additionalProperties |-> s])
     [] w = "prop"   -> ObjP([N_4 |-> s])
+    \* allOf together with additionalProperties and no own properties: an extended object, not a map
+    [] w = "allofmap" -> Mk(<<>>, [allOf |-> ListOf(<<s>>), additionalProperties |-> Str])
+    [] w = "allofmaptrue" -> Mk([additionalProperties |-> "=true"], [allOf |-> ListOf(<<s, ObjP([N_3 |-> Int])>>)])
 
 VARIABLES schema, depth, done
 vars == <<schema, depth, done>>
